@@ -12,7 +12,7 @@ CONSTANTS
   Kinds = {"T2", "T1S", "T1D", "T512"}
   Sizes = {1, 3, 5}
   Pads = {0, 1, 2, 3}
-  Props = {0, 77, 113}
+  Props = {0, 113}
   CtlFroms = {4, 9}
   MemSizes = {2}
   LockBits = {9, 12}
